@@ -46,7 +46,8 @@ ERRS = [('Could not remap', 'ErrRemap'), ('Not all single-qubit', 'ErrSingleDim'
         ('Filter function should be cached but omega', 'ErrOmega'), ('Additional noise Hamiltonian given and', 'ErrCacheDiag'),
         ('Expected additional noise operators', 'ErrAddDim'), ('Found duplicate noise operator', 'ErrAddDup'),
         ('Identifier ', 'ErrKey'), ('Identifier mapping is not one-to-one', 'ErrDupMap'),
-        ('Identifiers of the extended pulse should be unique', 'ErrDupIds')]
+        ('Identifiers of the extended pulse should be unique', 'ErrDupIds'),
+        ('Require nonzero number of args', 'ErrNoArgs')]
 
 
 # ---------------------------------------------------------------- independent reference constructions
@@ -317,7 +318,8 @@ def observed_lit(spec, pulses, pre, q, exc, rec):
     if exc is not None:
         return '(Raise %s)' % exc if not exc.startswith('Unknown') else None, []
     notes = []
-    if any(q is p for p in pulses) or (len(spec['pulses']) == 1 and 2 ** len(qlist(spec['pulses'][0]['target'])) == q.d):
+    plain = len(spec['pulses']) == 1 and spec['add'] is None and spec['pulses'][0]['mapping'] is None
+    if any(q is p for p in pulses) or (plain and 2 ** len(qlist(spec['pulses'][0]['target'])) == q.d):
         order = rec.remaps[0] if rec.remaps else []
         if not rec.remaps and q is not pulses[0]:
             notes.append(('shortcut', 'shortcut did not return the input pulse object'))
@@ -584,6 +586,16 @@ def case_specs(ctx, r):
         specs.append(make_spec(r, [1, (2, 0)] if ctx.thorough else [1, 0], 3 if ctx.thorough else 2,
                                dict(cd=cd, cf=cf, om=om, state=st, basis='pauli', add=(cd is not False and r.random() < 0.5))))
     specs += invalid_specs(r)
+    # a single pulse covering the whole register, with something to rename / add: no shortcut (since 9255946)
+    s1 = make_spec(r, [0], 1, dict(basis='pauli', add=False, N_given=False))
+    s1['pulses'][0]['mapping'] = {x['id']: 'r_' + x['id'] for x in s1['pulses'][0]['c'] + s1['pulses'][0]['n']}
+    specs.append(s1)
+    specs.append(make_spec(r, [0], 1, dict(basis='pauli', add=True, N_given=True, cd=None)))
+    for tgt in ((0, 1), (1, 0)):
+        s2 = make_spec(r, [tgt], 2, dict(basis='pauli', add=False))
+        s2['pulses'][0]['mapping'] = {x['id']: 'r_' + x['id'] for x in s2['pulses'][0]['c'] + s2['pulses'][0]['n']}
+        specs.append(s2)
+    specs.append(make_spec(r, [(0, 1)], 2, dict(basis='pauli', add=True, cd=None)))
     return specs
 
 
@@ -621,6 +633,9 @@ def evaluate(spec):
         fails.append(('exception', 'unexpected exception: %s' % exc))
     tag = exc or 'ok'
     nontriv = False
+    if exc == 'ErrNoArgs':
+        fails.append(('full-register-noargs', 'extend raises "Require nonzero number of args!" for a multi-qubit pulse mapped onto '
+                      'the whole register together with an identifier mapping / additional noise Hamiltonian'))
     if q is not None:
         if obs.startswith('(ReturnSame'):
             tag = 'shortcut'
